@@ -12,6 +12,7 @@ import (
 	"io/ioutil"
 	"os"
 	"path/filepath"
+	"sort"
 	"strings"
 	"time"
 
@@ -21,9 +22,10 @@ import (
 )
 
 type seqNode struct {
-	Cfg  string
-	Hist []int
-	Key  string // expected key after replaying Hist (determinism check)
+	Search string
+	Cfg    string
+	Hist   []int
+	Key    string // expected key after replaying Hist (determinism check)
 }
 
 type seqJob struct {
@@ -32,13 +34,14 @@ type seqJob struct {
 
 type seqSucc struct {
 	Step     int
-	Disabled bool   `json:",omitempty"`
-	Key      string `json:",omitempty"`
-	State    string `json:",omitempty"` // readable state (only kept for samples)
-	Err      string `json:",omitempty"`
-	What     string `json:",omitempty"`
-	Add      string `json:",omitempty"` // AddTx result
-	K        int    `json:",omitempty"` // queued senders ordered by this commit
+	Disabled bool     `json:",omitempty"`
+	Key      string   `json:",omitempty"`
+	State    string   `json:",omitempty"` // readable state (only kept for samples)
+	Err      string   `json:",omitempty"`
+	What     string   `json:",omitempty"`
+	Add      string   `json:",omitempty"` // AddTx result
+	K        int      `json:",omitempty"` // queued senders ordered by this commit
+	Limits   []string `json:",omitempty"` // limits of the pool / of Reap reached or crossed in the resulting state
 }
 
 type seqResult struct {
@@ -124,6 +127,12 @@ func execHistRetry(u *universe, cfgName string, ops []op, hist []int, wantParent
 		out.Err, out.What = in.rootCause(k+"@"+kind, w)
 		return
 	}
+	for l, on := range in.limits {
+		if on {
+			out.Limits = append(out.Limits, l)
+		}
+	}
+	sort.Strings(out.Limits)
 	out.State = in.stateString()
 	out.Key = hashKey(out.State)
 	return
@@ -151,14 +160,27 @@ func seqWorker(r *vk.Run, job *seqJob) {
 			pcs = append(pcs, pc)
 		}
 	}
-	u := buildUniverse(!r.Quick(), pcs)
+	u := buildUniverse(pcs)
 	ops := u.ops()
 	orderControlled = seamActive(u, pcs[0].Name)
+	masks := map[string][]bool{}
 	vk.WorkerLoop(len(job.Nodes), func(i int) interface{} {
 		n := job.Nodes[i]
+		mask, ok := masks[n.Search]
+		if !ok {
+			sp := findSearch(!r.Quick(), n.Search)
+			if sp == nil {
+				vk.Fatalf("worker: unknown search %q", n.Search)
+			}
+			mask = u.enabledOps(sp)
+			masks[n.Search] = mask
+		}
 		res := &seqResult{}
 		calls0 := mempl.VerifC15OrderCalls
 		for oi := range ops {
+			if !mask[oi] {
+				continue
+			}
 			variants := 1
 			for v := 0; v < variants; v++ {
 				h := append(append(make([]int, 0, len(n.Hist)+1), n.Hist...), oi*stepBase+v)
@@ -194,6 +216,9 @@ type seqStats struct {
 	OrderVariants       int // transitions executed with a non-default promotion order
 	Reaps               int
 	AddResults          map[string]int
+	LimitsCrossed       map[string]int // transitions whose resulting state reaches / crosses the limit
+	Letters             []string
+	Cfg                 string
 	Alphabet            int
 	OrderCalls          int
 }
@@ -228,6 +253,7 @@ func isoWorkers() int {
 }
 
 type seqSearch struct {
+	name     string
 	cfg      string
 	depth    int
 	st       seqStats
@@ -241,7 +267,7 @@ type seqSearch struct {
 
 // runSeq runs the BFS of every search in lockstep: level d of all searches is one batch of worker cases (fewer process
 // starts, better balance). The parent holds the universe only for names and the roots.
-func runSeq(r *vk.Run, u *universe, specs [][2]interface{}, mergeEvery int) []seqStats {
+func runSeq(r *vk.Run, u *universe, specs []searchSpec, mergeEvery int) []seqStats {
 	ops := u.ops()
 	names := func(h []int) []string {
 		out := make([]string, len(h))
@@ -253,18 +279,24 @@ func runSeq(r *vk.Run, u *universe, specs [][2]interface{}, mergeEvery int) []se
 	var searches []*seqSearch
 	maxDepth := 0
 	for _, sp := range specs {
-		s := &seqSearch{cfg: sp[0].(string), depth: sp[1].(int), seen: map[string][]int{}, sigOf: map[string]string{}}
-		s.st = seqStats{Name: s.cfg, AddResults: map[string]int{}, Alphabet: len(ops), Depth: s.depth}
+		s := &seqSearch{name: sp.Name, cfg: sp.Cfg, depth: sp.Depth, seen: map[string][]int{}, sigOf: map[string]string{}}
+		nops := 0
+		for _, on := range u.enabledOps(&sp) {
+			if on {
+				nops++
+			}
+		}
+		s.st = seqStats{Name: s.name, Cfg: s.cfg, Letters: sp.Letters, AddResults: map[string]int{}, LimitsCrossed: map[string]int{}, Alphabet: nops, Depth: s.depth}
 		root, _, reaps := execHist(u, s.cfg, ops, nil, "")
 		s.st.Reaps += reaps
 		if root.Err != "" {
-			r.Violation(root.Err, root.What, map[string]interface{}{"search": s.cfg, "ops": []string{}, "steps": []int{}})
+			r.Violation(root.Err, root.What, map[string]interface{}{"search": s.name, "ops": []string{}, "steps": []int{}})
 			s.done = true
 		} else {
 			s.seen[root.Key] = nil
 			s.st.States = 1
 			s.st.PerDepth = []int{1}
-			s.frontier = []seqNode{{s.cfg, nil, root.Key}}
+			s.frontier = []seqNode{{s.name, s.cfg, nil, root.Key}}
 		}
 		if s.depth > maxDepth {
 			maxDepth = s.depth
@@ -283,7 +315,7 @@ func runSeq(r *vk.Run, u *universe, specs [][2]interface{}, mergeEvery int) []se
 			if !s.done && len(s.frontier) > 0 && d <= s.depth {
 				s.st.Capped = true
 				s.done = true
-				r.Capped(fmt.Sprintf("seq/%s: %s depth %d (depth %d fully covered)", s.cfg, what, d, d-1))
+				r.Capped(fmt.Sprintf("seq/%s: %s depth %d (depth %d fully covered)", s.name, what, d, d-1))
 			}
 		}
 	}
@@ -320,7 +352,7 @@ func runSeq(r *vk.Run, u *universe, specs [][2]interface{}, mergeEvery int) []se
 				if fatal != "" {
 					n := job.Nodes[i]
 					r.Violation("process-dies:"+fatal, fmt.Sprintf("expanding %v kills the worker process: %s", names(n.Hist), fatal),
-						map[string]interface{}{"search": n.Cfg, "ops": names(n.Hist), "steps": n.Hist})
+						map[string]interface{}{"search": n.Search, "ops": names(n.Hist), "steps": n.Hist})
 					results[i] = &seqResult{}
 					return
 				}
@@ -349,7 +381,7 @@ func runSeq(r *vk.Run, u *universe, specs [][2]interface{}, mergeEvery int) []se
 			st := &s.st
 			for i := sp.from; i < sp.to; i++ {
 				if results[i].Mismatch != "" {
-					vk.Fatalf("seq/%s: nondeterministic replay: %s", s.cfg, results[i].Mismatch)
+					vk.Fatalf("seq/%s: nondeterministic replay: %s", s.name, results[i].Mismatch)
 				}
 			}
 			var next, nextShadow []seqNode
@@ -371,22 +403,25 @@ func runSeq(r *vk.Run, u *universe, specs [][2]interface{}, mergeEvery int) []se
 					if sc.Add != "" {
 						st.AddResults[sc.Add]++
 					}
+					for _, l := range sc.Limits {
+						st.LimitsCrossed[l]++
+					}
 					if sc.Err != "" {
-						r.Violation(sc.Err, sc.What, map[string]interface{}{"search": s.cfg, "ops": names(h), "steps": h})
+						r.Violation(sc.Err, sc.What, map[string]interface{}{"search": s.name, "ops": names(h), "steps": h})
 						continue
 					}
 					if rep, ok := s.seen[sc.Key]; ok {
 						s.merges++
 						if mergeEvery > 0 && s.merges%mergeEvery == 0 && d < s.depth && fmt.Sprint(rep) != fmt.Sprint(h) {
-							nextShadow = append(nextShadow, seqNode{s.cfg, h, sc.Key})
+							nextShadow = append(nextShadow, seqNode{s.name, s.cfg, h, sc.Key})
 						}
 						continue
 					}
 					s.seen[sc.Key] = h
 					st.States++
-					next = append(next, seqNode{s.cfg, h, sc.Key})
+					next = append(next, seqNode{s.name, s.cfg, h, sc.Key})
 					if st.States%1499 == 2 {
-						r.Sample(map[string]interface{}{"search": "seq/" + s.cfg, "ops": names(h), "state": sc.State})
+						r.Sample(map[string]interface{}{"search": "seq/" + s.name, "ops": names(h), "state": sc.State})
 					}
 				}
 			}
@@ -395,7 +430,7 @@ func runSeq(r *vk.Run, u *universe, specs [][2]interface{}, mergeEvery int) []se
 				n := job.Nodes[i]
 				st.MergeChecks++
 				if want, ok := s.sigOf[n.Key]; ok && sig(results[i]) != want {
-					vk.Fatalf("seq/%s: state key too coarse: %v and %v share key %s but their successors differ", s.cfg, names(s.seen[n.Key]), names(n.Hist), n.Key)
+					vk.Fatalf("seq/%s: state key too coarse: %v and %v share key %s but their successors differ", s.name, names(s.seen[n.Key]), names(n.Hist), n.Key)
 				}
 			}
 			s.shadow = nextShadow
